@@ -26,13 +26,15 @@ func vOffence(which int) []byte {
 		return []byte{0x00, 0x01, 'a', 0x01, 'b', 0x82} // pseudo-header after a regular field
 	case 3:
 		return []byte{0x82} // second :method
-	default:
+	case 4:
 		return []byte{0x00, 0x02, 't', 'e', 0x01, 'x'} // TE other than trailers
+	default:
+		return []byte{0x0f, 0x0d, 0x08, '9', '9', '9', '9', '9', '9', '9', '9'} // content-length far over MaxRequestBodySize
 	}
 }
 
 // Three requests on streams 1, 3 and 5. Stream 3 fails for a stream-scoped
-// reason chosen from a catalogue - a malformed header list (five kinds, with
+// reason chosen from a catalogue - a malformed or over-limit header list (six kinds, with
 // the offending field before or after a field that is added to the dynamic
 // table), refusal because MaxConcurrentStreams is reached, a body over
 // MaxRequestBodySize with DATA still in flight after the server's RST_STREAM,
@@ -58,7 +60,7 @@ func VerifH_C09_isolate() {
 
 	switch scenario {
 	case 0: // malformed header list on stream 3
-		which := vRange(0, 4)
+		which := vRange(0, 5)
 		before := vBool()
 		s.send(vFrame(0x1, 0x5, 1, vReqBlock('1')))
 		get()
@@ -72,7 +74,7 @@ func VerifH_C09_isolate() {
 		r := get()
 		vNote(fmt.Sprintf("malformed which=%d before=%v: goaway=%v/%d rst=%v", which, before, r.goaway, r.goawayCode, r.rst))
 		vAssert(!r.goaway, "C09.isolate.malformed-is-a-stream-error")
-		vAssert(r.rst[3] == ProtocolError || r.headers[3] == 1, "C09.isolate.malformed-refused")
+		vAssert(r.rst[3] == ProtocolError || (which == 5 && r.rst[3] == EnhanceYourCalm) || r.headers[3] == 1, "C09.isolate.malformed-refused")
 	case 1: // refused: the only slot is taken by a running handler
 		s.hold = true
 		s.send(vFrame(0x1, 0x5, 1, vReqBlock('1')))
